@@ -149,6 +149,9 @@ def check_case(case):
                 j = len(data)
                 r = (5 * j) % len(vec)
                 xs = [v + (0.25 * j if v == v and abs(v) < 1e6 else 0.0) for v in (vec[r:] + vec[:r])]
+                # ... except that every third lane repeats the drawn vector itself, so that lanes
+                # where two operands are exactly equal (ties of comparisons/selects) also occur
+                xs = [vec[l] if l % 3 == 0 and (j + l // 3 + k) % 3 != 0 else x for l, x in enumerate(xs)]
                 if bt == "UINT16":
                     data[nm] = [int(abs(v) * 997) % 32768 for v in xs]  # no ui16 overflow: x + y stays representable
                 else:
@@ -234,9 +237,9 @@ def floats():
     return st.one_of(st.tuples(mant, scale).map(lambda t: t[0] * t[1]), st.sampled_from([0.0, -0.0, 1.0, -1.0, 3.0]))
 
 
-def case_strategy(idx_strategy):
+def case_strategy(idx_strategy, variant_strategy=st.integers(0, 2)):
     vec = st.lists(floats(), min_size=24, max_size=24)
-    return st.fixed_dictionaries({"instr": idx_strategy, "variant": st.integers(0, 2), "pick": st.integers(0, 40), "vecs": st.lists(vec, min_size=6, max_size=6)})
+    return st.fixed_dictionaries({"instr": idx_strategy, "variant": variant_strategy, "pick": st.integers(0, 40), "vecs": st.lists(vec, min_size=6, max_size=6)})
 
 
 def run(ctx):
@@ -245,6 +248,7 @@ def run(ctx):
     n = len(instr_names())
     # every instruction is visited: shard s handles instructions s, s+nshards, ...
     mine = [i for i in range(n) if i % ctx.nshards == ctx.shard]
-    per = 3 if ctx.tier == "quick" else 120
+    per = 2 if ctx.tier == "quick" else 40  # (the first example Hypothesis generates is the all-zero one)
     for i in mine:
-        run_cases(ctx, case_strategy(st.just(i)), guarded(ctx, check_case), per, salt=f"i{i}")
+        for v in range(3):  # every instruction in every window placement
+            run_cases(ctx, case_strategy(st.just(i), st.just(v)), guarded(ctx, check_case), per, salt=f"i{i}v{v}")
